@@ -173,13 +173,14 @@ package font
 //@     step triple_appends_one_range: let a = hexStrings[prev(i)] in let b = hexStrings[prev(i)+1] in let c = hexStrings[prev(i)+2] in len(a) > 0 && len(b) > 0 && len(c) > 0 && !parseHexToUint32$1(a) && !parseHexToUint32$1(b) && !parseHexToUint32$1(c) ==> len(cm.rangeMappings) == prev(len(cm.rangeMappings)) + 1 && cm.rangeMappings[prev(len(cm.rangeMappings))].StartCode == parseHexToUint32(a) && cm.rangeMappings[prev(len(cm.rangeMappings))].EndCode == parseHexToUint32(b) && cm.rangeMappings[prev(len(cm.rangeMappings))].StartUnicode == parseHexToUint32(c)
 //@     step malformed_triple_adds_nothing: let a = hexStrings[prev(i)] in let b = hexStrings[prev(i)+1] in let c = hexStrings[prev(i)+2] in !(len(a) > 0 && len(b) > 0 && len(c) > 0 && !parseHexToUint32$1(a) && !parseHexToUint32$1(b) && !parseHexToUint32$1(c)) ==> len(cm.rangeMappings) == prev(len(cm.rangeMappings))
 //@     step earlier_ranges_kept: forall k int :: {cm.rangeMappings[k]} 0 <= k && k < prev(len(cm.rangeMappings)) ==> cm.rangeMappings[k] == prev(cm.rangeMappings)[k]
+// the byte width of the codes seen so far follows the SOURCE code of the entry (its hex digits, rounded up to whole bytes)
+//@     step code_width_follows_the_source_code: let a = hexStrings[prev(i)] in len(a) > 0 && len(hexStrings[prev(i)+1]) > 0 && len(hexStrings[prev(i)+2]) > 0 ==> cm.actualByteWidth == max(prev(cm.actualByteWidth), div(len(a) + mod(len(a), 2), 2))
 //@     decreases len(hexStrings) - i
 
 // bfrange with array targets: an entry is joined with following lines only while its closing bracket has not been
 // seen; one array parse per entry; simple triples on other lines as in parseBfRangeSection.
 //@ func (*CMap) parseBfRangeSectionWithArrays results (err)
 //@   property C07, C02
-//@   flags nosafety
 // linear work while an array stays open: each step searches only the piece it has just appended for the bracket
 //@   callsite strings.Contains#3(s, t) requires searches_only_the_new_piece: same(s, next)
 //@   loop 0:
@@ -257,14 +258,12 @@ package font
 // /BaseEncoding of an encoding dictionary; WinAnsi only when neither is given ----
 //@ func (*TrueTypeFont) parseEncoding results (err)
 //@   property C07
-//@   flags nosafety
 //@   atreturn#1 default_without_an_encoding_entry: tt.Encoding == "WinAnsiEncoding"
 //@   atreturn#3 named_encoding: istype(encodingObj, core.Name) && sameseq(tt.Encoding, astype(encodingObj, core.Name))
 //@   atreturn#4 base_encoding_of_the_dictionary: istype(encodingObj, core.Dict) && (isnil(astype(encodingObj, core.Dict).Get("BaseEncoding")) ==> tt.Encoding == "WinAnsiEncoding") && (istype(astype(encodingObj, core.Dict).Get("BaseEncoding"), core.Name) ==> sameseq(tt.Encoding, astype(astype(encodingObj, core.Dict).Get("BaseEncoding"), core.Name)))
 
 //@ func (*Type1Font) parseEncoding results (err)
 //@   property C07
-//@   flags nosafety
 //@   atreturn#1 default_without_an_encoding_entry: t1.Encoding == "StandardEncoding"
 //@   atreturn#3 named_encoding: istype(encodingObj, core.Name) && sameseq(t1.Encoding, astype(encodingObj, core.Name))
 //@   atreturn#6 base_encoding_of_the_dictionary: istype(encodingObj, core.Dict) && (isnil(astype(encodingObj, core.Dict).Get("BaseEncoding")) ==> t1.Encoding == "StandardEncoding") && (istype(astype(encodingObj, core.Dict).Get("BaseEncoding"), core.Name) ==> sameseq(t1.Encoding, astype(astype(encodingObj, core.Dict).Get("BaseEncoding"), core.Name)))
@@ -273,11 +272,9 @@ package font
 // entry is the stream itself or an indirect reference to it ----
 //@ func (*Type0Font) parseDescendantFont results (err)
 //@   property C07
-//@   flags nosafety
 //@   ensures only_the_descendant_is_set: t0.ToUnicode == old(t0.ToUnicode) && t0.Font == old(t0.Font) && t0.Encoding == old(t0.Encoding)
 //@ func NewType0Font results (res, err)
 //@   property C07
-//@   flags nosafety
 //@   ensures direct_stream_is_used: !err && istype(fontDict.Get("ToUnicode"), "*core.Stream") && !isnil(astype(fontDict.Get("ToUnicode"), "*core.Stream")) ==> res.ToUnicode == astype(fontDict.Get("ToUnicode"), "*core.Stream")
 //@   ensures referenced_stream_is_used: !err && istype(fontDict.Get("ToUnicode"), core.IndirectRef) && !resolver$1(astype(fontDict.Get("ToUnicode"), core.IndirectRef)) && istype(resolver(astype(fontDict.Get("ToUnicode"), core.IndirectRef)), "*core.Stream") && !isnil(astype(resolver(astype(fontDict.Get("ToUnicode"), core.IndirectRef)), "*core.Stream")) ==> res.ToUnicode == astype(resolver(astype(fontDict.Get("ToUnicode"), core.IndirectRef)), "*core.Stream")
 //@   callsite ParseToUnicodeCMap(s) requires cmap_parsed_from_the_designated_stream: s == stream && !isnil(stream)
